@@ -171,14 +171,18 @@ impl Interval {
     /// If the resulting interval is empty then an error is returned.
     /// This function ignores and replaces the previous stride of the interval.
     ///
-    /// For intervals with bytesize greater than 8 this function just returns the unmodified interval.
+    /// For intervals with bytesize greater than 8 this function does not adjust the bounds and sets the stride to 1
+    /// (or to 0 if the interval contains only one value).
     pub fn adjust_to_stride_and_remainder(
         self,
         stride: u64,
         remainder: u64,
     ) -> Result<Self, Error> {
         if self.bytesize() > ByteSize::new(8) {
-            return Ok(self);
+            // The bounds are not adjusted, so the given stride may not be valid for them.
+            let mut interval = self;
+            interval.set_stride_to_unknown();
+            return Ok(interval);
         }
         let (mut start, mut end) = (
             self.start.try_to_i128().unwrap(),
